@@ -177,7 +177,7 @@ def floors(tier):
         },
         "ops": ["Plot.plot", "do_fit"],
         "reach": ["%s:%s" % a for a in ANCHORS],
-        "strata": ["%s|%s" % s for s in STRATA] + ["ucfg|%s|%s|%s" % u for u in UCFG] + ["fits|1", "fits|2", "fits|3", "fixed-parameter", "negative-model"],
+        "strata": ["%s|%s" % s for s in STRATA] + ["ucfg|%s|%s|%s" % u for u in UCFG] + ["fits|1", "fits|2", "fits|3", "fixed-parameter", "negative-model", "replot-after-refit"],
         "distinct_nontrivial": 45 * k,
     }
 
@@ -311,7 +311,8 @@ def gen_case(rng, tier, idx, shard, nshards):
         else:
             ucfg, cost = _pick_ucfg(rng, t, o["panel"])
         members.append(gen_member(rng, tier, t, ucfg, cost, j, positive_x=(o["x_scale"] == "log")))
-    return {"property": "C18", "stratum": [ftype, option], "options": o, "members": members}
+    # every fourth case draws the same Plot object a second time after the fits have been changed and fitted again
+    return {"property": "C18", "stratum": [ftype, option], "options": o, "members": members, "replot": bool(gi % 4 == 2)}
 
 
 # ------------------------------------------------------------------ reference quantities
@@ -918,6 +919,62 @@ def _run_case(ctx, case):
         ctx.check("plot.no-exception", False, {"exception": e, "traceback": fmt_exc(), "options": opt, "fit_types": [mb.spec["type"] for mb in members], "costs": [mb.spec.get("cost") for mb in members], "declared_sources": [len(mb.ref.sources) for mb in members]}, key=classify_exception(e, case, members))
         return False
     ctx.check("plot.no-exception", True)
+    ok_first = verify_plot(ctx, case, plot, res, members, before, opt, want_asym)
+    if not ok_first or not case.get("replot"):
+        return ok_first
+    # ---- the same Plot object once more after the fits have changed: fit -> plot() -> fix a parameter elsewhere -> do_fit() -> plot()
+    ctx.op("Plot.plot.again")
+    for mb in members:
+        names = list(mb.ref.model.pnames)
+        free = [n for n in names if n not in mb.ref.fixed]
+        if len(free) < 2:
+            ctx.discard("replot-needs-two-free-parameters")
+            return ok_first
+        n = free[0]
+        k = names.index(n)
+        err = float(before[members.index(mb)]["errors"][k])
+        try:
+            mb.apply(["fix_parameter", n, float(mb.ref.p[k] + 3.0 * err)])
+            with time_limit(30):
+                mb.fit.do_fit()
+                if want_asym:
+                    mb.fit.asymmetric_parameter_errors
+            prev = held(mb.fit, want_asym)
+            for _ in range(4):
+                cur = held(mb.fit, want_asym)
+                if same_held(prev, cur):
+                    break
+                prev = cur
+            else:
+                ctx.discard("fit-state-does-not-settle")
+                return ok_first
+        except (Exception, OpTimeout):
+            ctx.discard("refit-for-second-plot-failed")
+            return ok_first
+        mb.sync_from_fit()
+        free_idx = [i for i, q in enumerate(names) if q not in mb.ref.fixed]
+        if cur["errors"] is None or not np.all(np.isfinite(cur["errors"][free_idx])) or np.any(cur["errors"][free_idx] <= 0) or not np.all(np.isfinite(mb.ref.p)) or not mb.admissible():
+            ctx.discard("refit-for-second-plot-degenerate")
+            return ok_first
+    exps = [Expect(mb, mb.ref.p) for mb in members]
+    if opt["panel"] == "ratio" and any(np.any(np.abs(ex.m) <= 1e-12 * np.max(np.abs(ex.m))) or not np.all(np.isfinite(ex.m)) for ex in exps):
+        ctx.discard("ratio-undefined-vanishing-model-value")
+        return ok_first
+    before2 = [held(mb.fit, want_asym) for mb in members]
+    try:
+        with time_limit(120):
+            res2 = plot.plot(**kw)
+    except OpTimeout:
+        ctx.discard("plot-timeout")
+        return ok_first
+    except Exception as e:
+        ctx.check("plot.no-exception", False, {"exception": e, "traceback": fmt_exc(), "options": opt, "second_plot_call_on_same_object": True, "fit_types": [mb.spec["type"] for mb in members]}, key=classify_exception(e, case, members))
+        return False
+    ctx.stratum("replot-after-refit")
+    return verify_plot(ctx, case, plot, res2, members, before2, opt, want_asym, second=True) and ok_first
+
+
+def verify_plot(ctx, case, plot, res, members, before, opt, want_asym, second=False):
     after = [held(mb.fit, want_asym) for mb in members]
     moved = not all(same_held(a, b) for a, b in zip(before, after))
     if moved:
@@ -925,12 +982,14 @@ def _run_case(ctx, case):
         return False
 
     nfig = len(members) if opt["separate"] else 1
-    det0 = {"options": opt}
-    if not ctx.check("plot.figures", isinstance(res, list) and len(res) == nfig and len(plot.figures) == nfig and len(plot.axes) == nfig, lambda: dict(det0, n_results=len(res), n_figures=len(plot.figures), expected=nfig)):
+    det0 = {"options": opt, "second_plot_call_on_same_object": True} if second else {"options": opt}
+    if not ctx.check("plot.figures", isinstance(res, list) and len(res) == nfig and len(plot.figures) == nfig * (2 if second else 1) and len(plot.axes) == len(plot.figures), lambda: dict(det0, n_results=len(res), n_figures=len(plot.figures), expected=nfig)):
         return False
+    # every plot() call opens its own figures and appends them: this call's are the last nfig
+    figs, axs = plot.figures[-nfig:], plot.axes[-nfig:]
     all_ok = True
     for fi in range(nfig):
-        axes = plot.axes[fi]
+        axes = axs[fi]
         idx = [fi] if opt["separate"] else list(range(len(members)))
         want_axes = {"main"} | ({opt["panel"]} if opt["panel"] else set())
         if not ctx.check("plot.axes", want_axes <= set(axes) and set(res[fi]) >= want_axes, lambda: dict(det0, axes=list(axes), results=list(res[fi]))):
@@ -944,7 +1003,7 @@ def _run_case(ctx, case):
                 return False
             all_ok = all_ok and ok
         # ---- legend of this figure
-        legs = plot.figures[fi].legends
+        legs = figs[fi].legends
         texts = [t.get_text() for lg in legs for t in lg.get_texts()]
         infos = [s for s in texts if "hookrightarrow" in s]
         if not ctx.check("legend.count", len(legs) == 1 and len(infos) == len(idx), lambda: dict(det0, figure=fi, n_legends=len(legs), n_fit_infos=len(infos), n_fits=len(idx), texts=texts)):
